@@ -205,13 +205,46 @@ def draw_obs_layout(rng, wn, kmax=40):
     return None
 
 
-def make_observation(rng, layout, values, sigma, shuffle=True):
+_offset_cls = {}
+
+
+def offset_spectrum_class():
+    """An observation with a fitting parameter of its own: an additive offset on the observed values (two instruments
+    with an unknown zero point) -- the kind of observation parameter C06/C07 quantify over."""
+    if 'cls' in _offset_cls:
+        return _offset_cls['cls']
+    from taurex.data.spectrum.array import ArraySpectrum
+    from taurex.data.fittable import fitparam
+
+    class OffsetSpectrum(ArraySpectrum):
+        def __init__(self, rows, offset=0.0):
+            super().__init__(rows)
+            self._vmon_offset = float(offset)
+
+        @property
+        def spectrum(self):
+            return ArraySpectrum.spectrum.fget(self) + self._vmon_offset
+
+        @fitparam(param_name='obs_offset', param_latex='$\\Delta$', default_fit=False, default_bounds=[-1.0, 1.0])
+        def obsOffset(self):
+            return self._vmon_offset
+
+        @obsOffset.setter
+        def obsOffset(self, value):
+            self._vmon_offset = float(value)
+    _offset_cls['cls'] = OffsetSpectrum
+    return OffsetSpectrum
+
+
+def make_observation(rng, layout, values, sigma, shuffle=True, with_offset=False):
     """ArraySpectrum rows (wavelength[um], value, error, width[um]) for designed WAVENUMBER bins c +- w/2: the width
     handed in is 1e4*w/c^2, which the loader converts back to w."""
     from taurex.data.spectrum.array import ArraySpectrum
     c, w = layout['c'], layout['w']
     rows = np.stack([1e4 / c, values, sigma, 1e4 * w / c ** 2]).T
     order = rng.permutation(len(c)) if shuffle else np.arange(len(c))
+    if with_offset:
+        return offset_spectrum_class()(rows[order].copy(), 0.0), order
     return ArraySpectrum(rows[order].copy()), order
 
 
